@@ -18,7 +18,7 @@
 #define _GNU_SOURCE
 #include <sys/prctl.h>
 #include <signal.h>
-#include "runtime/channel.c" // wrapper TU: gives access to the static next_write()
+#include "runtime/channel.c" // wrapper TU (the struct definitions; no static function of channel.c is called from here)
 #include "detsched.h"
 
 #include <stdio.h>
@@ -141,6 +141,24 @@ static void on_event(void* ctx, const struct detsched_event* ev)
     printf("\n");
 }
 
+// the harness's own reading of "is there room for n bytes now?", from the struct fields only (the placement rule of the
+// ring: the bookmark of the reader that is furthest behind bounds the writer).  Independent of channel.c's static helpers,
+// so that a change of their signatures or internals does not stop the harness from compiling.
+static int spec_has_room(size_t n)
+{
+    size_t tail = ch.holds.pos[0], tcyc = ch.holds.cycles[0];
+    for (unsigned i = 1; i < ch.holds.n && i < MAXR; ++i)
+        if (ch.holds.cycles[i] < tcyc || (ch.holds.cycles[i] == tcyc && ch.holds.pos[i] < tail)) {
+            tail = ch.holds.pos[i]; tcyc = ch.holds.cycles[i];
+        }
+    if (ch.head < tail) return n <= tail - ch.head;          // writer a lap ahead: only the gap up to the slowest reader
+    if (tail == ch.head && ch.cycle == tcyc + 1) return 0;   // exactly full
+    if (n <= ch.capacity - ch.head) return 1;                // room behind the data
+    if (n <= tail) return 1;                                 // room in front of the slowest reader
+    if (tail == ch.head) return n < ch.capacity;             // everything consumed: start over
+    return 0;
+}
+
 static void on_terminal(void* ctx, int code)
 {
     (void)ctx;
@@ -148,8 +166,7 @@ static void on_terminal(void* ctx, int code)
     for (int t = 1; t <= nthreads; ++t) {
         long n = cur_wmap_n[t];
         if (n <= 0) continue;
-        size_t beg = 0; uint8_t wrap = 0;
-        int admissible = !ch.is_accepting_writes || ch.holds.n == 0 || next_write(&ch, (size_t)n, &beg, &wrap);
+        int admissible = !ch.is_accepting_writes || ch.holds.n == 0 || spec_has_room((size_t)n);
         if (admissible) printf("ORACLE lost-wakeup %d %ld\n", t, n);
         else printf("NOTE writer %d waits for space (n=%ld): environment does not consume\n", t, n);
     }
